@@ -39,6 +39,8 @@ import (
 //	            outliving it is `.error .hang`), break / continue without label, statement calls of the logging
 //	            functions (log.Printf, fmt.Println/Printf, logger.XLog.Y) with operands that cannot fail (ignored),
 //	            `_ = x`
+//	self-test   `gen pure-selftest` translates harness/cmd/gen/pureselftest/fns.go (every construct above) and writes the results
+//	            of executing the compiled functions beside the translation (Gen/PureSelftest.lean, checked when built)
 //	prefix mode (CreateUE): the statements before the first one that starts with a given text are translated and the
 //	            named locals returned; the remaining statements are pinned as text (`<fn>.tail : List String`)
 func init() {
@@ -46,7 +48,12 @@ func init() {
 		g := g
 		register(g.name, func() error { return genPureGroups([]*puGroup{g}) })
 	}
-	register("pure", func() error { return genPureGroups(puGroups) })
+	register("pure", func() error {
+		if err := genPureGroups(puGroups); err != nil {
+			return err
+		}
+		return genPureSelftest()
+	})
 }
 
 type puTarget struct {
@@ -102,7 +109,7 @@ type puGroupCtx struct {
 	ld      *puLoader
 	fns     []*puFn
 	byObj   map[*types.Func]*puFn
-	structs []string                // Lean structure declarations, in order
+	structs []string // Lean structure declarations, in order
 	sname   map[*types.TypeName]string
 	staken  map[string]bool
 }
@@ -274,19 +281,24 @@ func puFindFunc(p *puPkg, t puTarget) (*ast.FuncDecl, error) {
 }
 
 func genPureGroup(ld *puLoader, g *puGroup) (string, error) {
+	s, _, err := genPureGroupCtx(ld, g)
+	return s, err
+}
+
+func genPureGroupCtx(ld *puLoader, g *puGroup) (string, *puGroupCtx, error) {
 	gc := &puGroupCtx{g: g, ld: ld, byObj: map[*types.Func]*puFn{}, sname: map[*types.TypeName]string{}, staken: map[string]bool{}}
 	for _, t := range g.targets {
 		p, err := ld.load(t.pkg)
 		if err != nil {
-			return "", err
+			return "", nil, err
 		}
 		fd, err := puFindFunc(p, t)
 		if err != nil {
-			return "", err
+			return "", nil, err
 		}
 		obj, _ := p.info.Defs[fd.Name].(*types.Func)
 		if obj == nil {
-			return "", fail("%s: no type information for func %s", filepath.Join(p.dir, t.file), t.fn)
+			return "", nil, fail("%s: no type information for func %s", filepath.Join(p.dir, t.file), t.fn)
 		}
 		c := &puFn{t: t, grp: gc, pkg: p, decl: fd, obj: obj, lean: t.fn, names: map[types.Object]string{}, used: map[string]bool{}}
 		// a type error inside the function is a broken tie
@@ -310,7 +322,7 @@ func genPureGroup(ld *puLoader, g *puGroup) (string, error) {
 					}
 				}
 				if !inLog {
-					return "", fail("%s: %s: type error: %s", ld.fset.Position(te.Pos), t.fn, te.Msg)
+					return "", nil, fail("%s: %s: type error: %s", ld.fset.Position(te.Pos), t.fn, te.Msg)
 				}
 			}
 		}
@@ -319,7 +331,7 @@ func genPureGroup(ld *puLoader, g *puGroup) (string, error) {
 			c.recv = sig.Recv()
 		}
 		if sig.Variadic() || sig.TypeParams() != nil {
-			return "", c.errf(fd, "variadic / generic function")
+			return "", nil, c.errf(fd, "variadic / generic function")
 		}
 		c.body = fd.Body.List
 		if t.upto != "" {
@@ -331,7 +343,7 @@ func genPureGroup(ld *puLoader, g *puGroup) (string, error) {
 				}
 			}
 			if cut < 0 {
-				return "", c.errf(fd, "no statement starts with %q (prefix mode)", t.upto)
+				return "", nil, c.errf(fd, "no statement starts with %q (prefix mode)", t.upto)
 			}
 			c.body, c.tail = fd.Body.List[:cut], fd.Body.List[cut:]
 		}
@@ -344,7 +356,7 @@ func genPureGroup(ld *puLoader, g *puGroup) (string, error) {
 		for _, c := range gc.fns {
 			m, mo, ex, err := c.facts()
 			if err != nil {
-				return "", err
+				return "", nil, err
 			}
 			if m != c.mutRecv || mo != c.monadic || ex != c.usesExt {
 				c.mutRecv, c.monadic, c.usesExt = m, mo, ex
@@ -355,11 +367,11 @@ func genPureGroup(ld *puLoader, g *puGroup) (string, error) {
 	var defs []string
 	for _, c := range gc.fns {
 		if err := c.checkOwnership(); err != nil {
-			return "", err
+			return "", nil, err
 		}
 		d, err := c.translate()
 		if err != nil {
-			return "", err
+			return "", nil, err
 		}
 		defs = append(defs, d)
 	}
@@ -376,7 +388,7 @@ func genPureGroup(ld *puLoader, g *puGroup) (string, error) {
 		b.WriteString("\n")
 	}
 	fmt.Fprintf(&b, "end Stgutg.Gen.Pure.%s\n", g.ns)
-	return b.String(), nil
+	return b.String(), gc, nil
 }
 
 // ---------------------------------------------------------------------------------------------- facts
